@@ -46,7 +46,7 @@ package analyzer
 //@   loop 1 decreases len(postings) - rangeindex
 
 //@ func CheckBalance
-//@   props C02 C06
+//@   props C02 C06 C15
 //@   requires tx != nil
 //@   ensures [multi] rninf(tx.Postings, len(tx.Postings)) > 1 ==> !result.Balanced && result.InferredIdx == 0 - 1 && (forall c string :: !has(result.Differences, c))
 //@   ensures [one] rninf(tx.Postings, len(tx.Postings)) == 1 ==> result.Balanced
@@ -91,9 +91,13 @@ package analyzer
 //@   loop 1 invariant forall d string :: iterseen[d] ==> has(declared, d) && !hasprefix(accountName, concat(d, ":"))
 
 //@ func (*Analyzer).createBalanceDiagnostic
-//@   props C02
+//@   props C02 C15
 //@   requires br != nil && tx != nil
 //@   ensures [total] true
+//@   loop 1 sorted commodities
+//@   loop 1 invariant fresh(commodities)
+//@   loop 2 invariant 0 - 1 <= rangeindex
+//@   loop 2 decreases len(commodities) - rangeindex
 
 //@ func checkUndeclaredCommodities
 //@   props C18
@@ -101,3 +105,35 @@ package analyzer
 //@   ensures [only_undeclared] forall i int :: 0 <= i && i < len(result) ==> result[i].Code == "UNDECLARED_COMMODITY" && result[i].Severity == 1
 //@   loop 1 invariant 0 - 1 <= rangeindex && seen != nil && fresh(seen) && (forall i int :: 0 <= i && i < len(diags) ==> diags[i].Code == "UNDECLARED_COMMODITY" && diags[i].Severity == 1)
 //@   loop 1 decreases len(tx.Postings) - rangeindex
+
+// ---- C15: name lists gathered over an include tree are a function of the tree (no dependence on map order) ----
+// The per-journal collectors build fresh values from the journal and write nothing else (trusted: bodies not verified).
+
+//@ trusted CollectPayees
+//@   ensures fresh(result) || len(result) == 0
+//@ trusted CollectCommodities
+//@   ensures fresh(result) || len(result) == 0
+//@ trusted CollectTags
+//@   ensures fresh(result) || len(result) == 0
+//@ trusted CollectAccounts
+//@   ensures result != nil && fresh(result)
+//@ trusted addAccountToIndex
+//@   modifies idx.All, idx.ByPrefix[*]
+
+//@ func collectPayeesFromResolved
+//@   props C15
+//@   requires resolved != nil
+//@   ensures [total] true
+//@   loop 1 invariant fresh(seen) && seen != nil
+
+//@ func collectCommoditiesFromResolved
+//@   props C15
+//@   requires resolved != nil
+//@   ensures [total] true
+//@   loop 1 invariant fresh(seen) && seen != nil
+
+//@ func collectTagsFromResolved
+//@   props C15
+//@   requires resolved != nil
+//@   ensures [total] true
+//@   loop 1 invariant fresh(seen) && seen != nil
